@@ -42,7 +42,7 @@ ENGINES_META = [
 CHECKS = {
     'C03': dict(engine='pipeline', design_ref='5 (C03)', note=PIPE_NOTE,
                 technique='deterministic simulation (virtual-time asyncio loop) + seeded schedule/fault search + reference-model oracle',
-                text='Seeded search over interleavings of express/Data/Nack/timer/cancel/shutdown and validator latencies in both front-ends, decided by an executable PIT reference model over the recorded history (exactly-once, right outcome, no internal error, nothing left pending). Callers may await at once, late (up to three lifetimes after express()) or never; the system clock is stepped forwards and backwards while Interests are out, and such runs are judged like any other (a lifetime is a duration); streams die with EOF, reset, time-out, abort, broken pipe or unreachable host. Sampling, not proof: right level because the property is quantified over schedules.',
+                text='Seeded search over interleavings of express/Data/Nack/timer/cancel/shutdown and validator latencies in both front-ends, decided by an executable PIT reference model over the recorded history (exactly-once, right outcome, no internal error, nothing left pending). Callers may await at once, late (up to three lifetimes after express()) or never; the system clock is stepped forwards and backwards while Interests are out, and such runs are judged like any other (a lifetime is a duration); streams die with EOF, reset, time-out, abort, broken pipe or unreachable host, run() of the face raises, a send() fails, the caller re-uses its name buffers after express(), asks for the raw packet, expresses the root prefix. Sampling, not proof: right level because the property is quantified over schedules.',
                 level='exploration', real=PIPE_REAL, stub=STUB_COMMON,
                 rule='seed -> scripted scenario (1-7 Interests on colliding names, Data/Nack/cancel/shutdown events '
                      'aimed at the lattice around each deadline and validator completion); a run is non-trivial when '
@@ -89,7 +89,7 @@ CHECKS['C17'] = dict(
          'TLV reader, return value == status 200, one outstanding command at a time, strictly increasing timestamps (also across '
          'a reconnect), every declared route registered once on every connection that follows its declaration, and '
          'parse_response round trips. In a quarter of the runs the wall clock moves on between two consecutive reads; some runs '
-         'make a call before the application connects, or drop the connection right after the last start-up command.',
+         'make a call before the application connects, or drop the connection right after the last start-up command. The wall clock ticks every 1 to 50 ms; faces are local or not (/localhost vs /localhop); prefixes are up to 70000 octets long; a prefix may be declared twice; a reconnect may be a second run_forever(), i.e. a new event loop (emulated: loop-bound primitives held from the previous run are bound elsewhere).',
     note='Trusted: SimLoop, the independent TLV reader/writer, the fake forwarder. Backward wall-clock steps are not generated '
          '(the statement quantifies over calls at the same clock reading, not over clock steps); forward ticks between reads are.',
     real=REAL_COMMON + ['ndn.transport.nfd_registerer.NfdRegister', 'ndn.appv2.NDNApp', 'ndn.app.NDNApp (register/unregister/route)',
@@ -105,7 +105,7 @@ CHECKS['C19'] = dict(
     text='Seeded search over object sizes (unsegmented, 1-12 segments), discovery answers (any segment / unsegmented), '
          'FinalBlockId placement and per-segment reply patterns (lost, Nack, duplicate, delayed around the lifetime, rejected '
          'by the validator); oracle = reference walk of the retry policy: exact yielded sequence, exact terminating '
-         'exception, exact number of Interests the producer sees per segment. In 30% of the runs two or three fetches of the '
+         'exception, exact number of Interests the producer sees per segment (retry_times 0 to 4; the name given as string, list, wire, iterator or generator, or as the name of one segment). In 30% of the runs two or three fetches of the '
          'same object, and plain consumers asking for its names, share one application and start at staggered times; there '
          'each fetch must still yield the object in order and completely, and must complete when no reply is lost or late.',
     note='Trusted: SimLoop, the scripted producer, the reference walk. Replies delayed to within 1.5 ms of (or beyond) the '
@@ -144,7 +144,7 @@ CHECKS['C20'] = dict(
     technique='simulated environment (fake file system, environment variables, sockets) + simulated network endpoints + reference resolver',
     text='The precedence product {env set/unset}^3 x {which candidate file exists} x {key present}^3 x {store location '
          'absent/existing/relative/missing}^2 (5120 combinations) is walked by consecutive seeds with seeded transports, '
-         'file styles and store schemes; read_client_conf, default_keychain and the connection NDNApp() really attempts on '
+         'file styles (comments, indentation with any white-space, upper case, values containing %, :, # and ;), store schemes, symbolic links, a directory at a candidate path; read_client_conf, default_keychain and the connection NDNApp() really attempts on '
          'the simulated network are compared with a 30-line reference resolver.',
     note='Trusted: the fake os/open seam, the reference resolver, SimLoop. There is no schedule in this property: the simulator '
          'contributes the environment/transport seams and the end-to-end observation of the endpoint. Abstains for URIs without host/path. '
